@@ -509,7 +509,7 @@ class Assembled:
 
 def assemble(unit: dict, scratch: str, passname="A") -> Assembled:
     job = {k: unit[k] for k in ("files", "fns", "exclude_fns", "aliases", "rename_calls", "extern_effectful", "extern_pure",
-                                "force_effectful", "native_arith", "rename_fns") if k in unit}
+                                "force_effectful", "native_arith", "rename_fns", "exclude_fn_prefixes") if k in unit}
     job["root"] = REPO
     job["checked_arith"] = passname == "A"
     if unit.get("expand"):
